@@ -10,7 +10,7 @@ THEOREMS = ["C11.C11_url_roundtrip", "C11.C11_cookie_wire", "C11.C11_roundtrip_r
             "C11.C11_roundtrip_hash", "C11.C11_roundtrip_aes", "C11.C11_roundtrip_fallback", "C11.C11_roundtrip_codec",
             "C11.C11_roundtrip", "C11.C11_key_rotation", "C11.C11_pinned_regardless_of_rotation", "C11.C11_never_outside_pool",
             "C11.C11_served_in_pool", "C11.C11_stale", "C11.C11_stale_none", "C11.C11_stale_rebalanced", "C11.C11_no_steal_raw", "C11.C11_absent_or_malformed", "C11.C11_forged", "C11.C11_expired",
-            "C11.C11_degrades", "C11.C11_fresh_cookie_pins", "C11.C11_pool_invariant", "Sticky.symCipher_ideal"]
+            "C11.C11_degrades", "C11.C11_fresh_cookie_pins", "C11.C11_pool_invariant", "C11.C11_rebalancer_admin", "Sticky.symCipher_ideal"]
 RACE = False
 MAX_REPORTS = 1000
 RULE = ("scenario = one balancer (rr or rebalancer) with a sticky session of a random codec (raw / hash / aes+ttl / fallback chains, "
@@ -23,7 +23,7 @@ ASSUMPTIONS = [
     "the FNV-1a hash is collision-free on the pool (hypothesis of Good / Unfound)",
     "fallback chains: the no-steal conjunct of Good (.fallback from to) - `from` does not claim the value minted by `to` for another server - is discharged for AES->AES (C11_key_rotation) and for from=raw over ':'-free values (C11_no_steal_raw); it stays an explicit hypothesis for from=hash (no collision across salts/codecs) and for from=AES over a non-AES `to` (the value is not an encoding of a minted cookie)",
     "URL round trip is proved for scheme://[user[:pw]@]host|[ip-literal][:port][/path][?query] (C11_url_roundtrip); IPv6 zones, fragments, opaque and scheme-less URLs keep RoundTrip as a decidable hypothesis",
-    "the rebalancer variant runs with healthy backends only (weights never re-rated); its sticky path is the same machine as the bare balancer's",
+    "the rebalancer variant runs with healthy backends only (weights never re-rated); its administration (own records, reset() re-registering them, servers registered on the wrapped balancer directly) is modelled (Sticky.RB) and reduces to upserts/removes of the wrapped balancer (C11_rebalancer_admin); its sticky path is the same machine as the bare balancer's",
     "the client echoes the name=value pair of the Set-Cookie line verbatim",
     "int64 overflow of a forged expiry (|exp| near 2^63) is unmodelled; generator stays below 10^12",
 ]
@@ -145,7 +145,11 @@ def minter(spec):
 
 def gen_scenario(rng, awkward, n_ops):
     codec = gen_codec(rng)
-    lines = ["cfg lb=%s codec=%s%s%s%s" % (rng.choice(["rr", "rr", "rb"]), codec, " via=srv" if rng.random() < 0.1 else "",
+    lbk = rng.choice(["rr", "rr", "rb"])
+    # behind a rebalancer some servers are registered on the wrapped balancer directly
+    mixed = lbk == "rb" and rng.random() < 0.4
+    inner = lambda: "-inner" if (mixed and rng.random() < 0.45) else ""
+    lines = ["cfg lb=%s codec=%s%s%s%s" % (lbk, codec, " via=srv" if rng.random() < 0.1 else "",
                                            " opts=1" if rng.random() < 0.25 else "",
                                            " name=" + rng.choice(["sid", "x-aff_1", "A.b%7Cc"]) if rng.random() < 0.12 else "")]
     urls = []
@@ -163,8 +167,8 @@ def gen_scenario(rng, awkward, n_ops):
         urls.append(u)
     for u in urls:
         w = rng.choice(["", "", " 1", " 2", " 3", " 5", " 0"])
-        lines.append("upsert " + esc(u) + w)
-    if rng.random() < 0.5:
+        lines.append("upsert%s " % inner() + esc(u) + w)
+    if mixed or rng.random() < 0.5:
         lines.append("servers")
     now = 0
 
@@ -176,11 +180,11 @@ def gen_scenario(rng, awkward, n_ops):
         m = minter(codec)
         lines.append("mint %s %s" % (m, esc(a)))
         lines.append("req cookie=@1")
-        chg = ["remove " + esc(a), "upsert " + esc(c) + rng.choice(["", " 2"])]
+        chg = ["remove%s " % inner() + esc(a), "upsert%s " % inner() + esc(c) + rng.choice(["", " 2"])]
         if rng.random() < 0.3:
             chg.reverse()
         lines.extend(chg)
-        if rng.random() < 0.3:
+        if mixed or rng.random() < 0.3:
             lines.append("servers")
         lines.append("req cookie=@1")
         lines.append("mint %s %s" % (m, esc(c)))
@@ -233,14 +237,17 @@ def gen_scenario(rng, awkward, n_ops):
             u = rng.choice(urls)
             p = rng.random()
             if p < 0.4:
-                lines.append("remove " + esc(u))
+                lines.append("remove%s " % inner() + esc(u))
             elif p < 0.5:
                 nu = gen_url(rng, awkward)
                 urls.append(nu)
-                lines.append("upsert " + esc(nu))
+                lines.append("upsert%s " % inner() + esc(nu))
+                if mixed and rng.random() < 0.6:
+                    # a cookie naming the new member straight away
+                    lines += ["servers", "mint %s %s" % (minter(codec), esc(nu)), "req cookie=@1"]
             else:
-                lines.append("upsert " + esc(u) + rng.choice(["", " 1", " 4", " 0", " 2"]))
-            if rng.random() < 0.35:
+                lines.append("upsert%s " % inner() + esc(u) + rng.choice(["", " 1", " 4", " 0", " 2"]))
+            if mixed or rng.random() < 0.35:
                 lines.append("servers")
         elif r < 0.84:
             q = rng.random()
@@ -267,7 +274,7 @@ def gen(rng, tier):
     for i in range(n_scen // 50):
         lines = gen_scenario(rng, False, 10)
         for _ in range(3):
-            lines.insert(rng.randint(1, len(lines)), rng.choice(["mint", "mint raw", "mint fb(raw http://h1/", "mint hash:x http://h%201/", "req", "req cookie=@0", "req cookie=@x", "upsert", "upsert http://h1 x", "codec fb(raw", "codec",
+            lines.insert(rng.randint(1, len(lines)), rng.choice(["upsert-inner", "remove-inner a b", "mint", "mint raw", "mint fb(raw http://h1/", "mint hash:x http://h%201/", "req", "req cookie=@0", "req cookie=@x", "upsert", "upsert http://h1 x", "codec fb(raw", "codec",
                                                                  "adv x", "frob", "req cookie=@1 t=flip:1:9", "req cookie=@1 t=zap", "req cookie=raw:%z", "remove a b",
                                                                  "codec aes::5", "codec hash:%4"]))
         yield lines
@@ -310,6 +317,9 @@ def analyse(ops, outs):
     pool = {}      # member URL string -> (weight, key), derived from the upsert/remove calls; None = unknown
     now = 0
     jar = []       # dicts: server, leaf (minting leaf spec), t (mint time), sealed
+    # servers registered on the wrapped balancer directly, next to ones registered through the rebalancer (whose reset()
+    # re-registers its own records): membership is then what the wrapped balancer lists after each change
+    listing = any(l.split()[:1] and l.split()[0] in ("upsert-inner", "remove-inner") for l in ops)
     for l, o in zip(ops, outs):
         if l.startswith("#"):
             continue
@@ -326,7 +336,7 @@ def analyse(ops, outs):
         if f[0] == "servers":
             # Servers() as the implementation lists it: NOT used as the truth about membership (the truth is what the
             # administration calls did, below) - only when those are unknown
-            if pool is None and o.startswith("servers"):
+            if (pool is None or listing) and o.startswith("servers"):
                 pool = {}
                 for t in o.split()[1:]:
                     u, w, key = t.rsplit(",", 2)
@@ -340,6 +350,9 @@ def analyse(ops, outs):
             if len(t) == 3 and t[1] != "none":
                 u, key = t[2].rsplit(",", 1)
                 jar.append({"server": u, "key": key, "leaf": minter(f[1]), "t": now, "foreign": True})
+        elif listing and f[0] in ("upsert", "remove", "upsert-inner", "remove-inner"):
+            if o.startswith("ok"):
+                pool = None
         elif f[0] == "upsert" and o.startswith("ok"):
             # membership follows from the administration calls themselves: a successful upsert of a new identity adds
             # a member (the URL as given), of a known identity only changes its weight
